@@ -537,3 +537,29 @@ BENIGN["C13"] += [
     (KL, "    for i in range(nr):\n        for j in range(i + 1):\n            radius = 0.5 * np.sqrt(rad[i]**2 + rad[j]**2 -\n                                   2 * rad[i] * rad[j] *\n                                   np.cos(np.arange(nth) * 2 * np.pi / nth))\n",
           "    cos_theta = np.cos(np.arange(nth) * 2 * np.pi / nth)\n    for i in range(nr):\n        for j in range(i + 1):\n            rad_i, rad_j = rad[i], rad[j]\n            radius = 0.5 * np.sqrt(rad_i**2 + rad_j**2 - 2 * rad_i * rad_j * cos_theta)\n"),
 ]
+
+# ---- round-4 rules (structure law, scale-after-transform, memory-order traversal, helper recursion)
+SEEDED["C01"] += [
+    (SC, "    return D_vk\n", "    return numpy.where(seperation > L0, D_vk.max(), D_vk)\n", "stencil.structure-law"),
+    (SC, "    return D_vk\n", "    return numpy.sort(D_vk.ravel()).reshape(numpy.shape(D_vk))\n", "stencil"),
+]
+SEEDED["C09"] += [
+    (FT, "                    numpy.fft.ifftshift(data, axes=(-1,-2))\n                    ), axes=(-1,-2)\n            )*delta**2\n",
+     "                    numpy.fft.ifftshift(data*delta**2, axes=(-1,-2))\n                    ), axes=(-1,-2)\n            )\n", "R3"),
+]
+BENIGN["C09"] += [
+    (FT, "                    numpy.fft.ifftshift(data, axes=(-1,-2))\n                    ), axes=(-1,-2)\n            )*delta**2\n",
+     "                    numpy.fft.ifftshift(data, axes=(-1,-2))\n                    ), axes=(-1,-2)\n            )*(delta*delta)\n"),
+]
+
+_C16R = "selftest/refactorings/c16_recursive_spline_helper.diff"     # zoom/zoom_rbs share a recursive helper (complex -> real + 1j*imag)
+SEEDED_ON["C16"] = [
+    (_C16R, INT, "+ 1j*_spline_zoom(array.imag, coordsX, coordsY, order))", "+ 1j*_spline_zoom(array.imag, coordsX, coordsY))", "B3.complex-split"),
+    (_C16R, INT, "+ 1j*_spline_zoom(array.imag, coordsX, coordsY, order))", "+ _spline_zoom(array.imag, coordsX, coordsY, order))", "B3.complex-split"),
+    (_C16R, INT, "return (_spline_zoom(array.real, coordsX, coordsY, order)", "return (_spline_zoom(array.real, coordsY, coordsX, order)", "B3"),
+    (_C16R, INT, "    if numpy.iscomplexobj(array):\n        return (_spline_zoom", "    if numpy.issubdtype(array.dtype, complex):\n        return (_spline_zoom", "B3.complex-detection"),
+]
+SEEDED["C14"] += [
+    (WFS, "    n_subap = 0\n    for x in range(nx_subaps):\n        for y in range(nx_subaps):\n            if mask[x, y] == 1:\n                subaps_2d[:, :, x, y] = data[:, :, n_subap]\n                n_subap += 1\n",
+     "    cells = numpy.flatnonzero(mask.ravel(order=\"K\") == 1)\n    subaps_2d.reshape(n_frames, 2, -1)[:, :, cells] = data\n", "M4"),
+]
